@@ -3,9 +3,11 @@ package calls
 
 import (
 	"context"
+	"encoding/binary"
 	"encoding/json"
 	"errors"
 	"fmt"
+	"math"
 	"strings"
 	"time"
 
@@ -106,7 +108,83 @@ func mainModule() []byte {
 	m.AddFunc(wb.Func{Params: i32, Results: i32, Export: "callpeer", Body: wb.Cat(bump1, wb.LocalGet(0), wb.Call(peer), wb.I32Const(100), wasm.OpcodeI32Add)})
 	m.AddFunc(wb.Func{Params: i32, Results: i32, Export: "viahost", Locals: i32, Body: wb.Cat(bump1,
 		wb.LocalGet(0), wb.I32Const(0), wb.Call(h0), wb.LocalSet(1), bump(wb.I32Const(10)), wb.LocalGet(1))})
+	// typed functions (Calls!TypedFns): the model's integer x travels encoded in 64-bit and float values (typedArgs)
+	i64c3 := wb.I64Const(3 << 32)
+	f64c3 := wb.Cat(wasm.OpcodeF64Const, le64(math.Float64bits(3)))
+	f32c3 := wb.Cat(wasm.OpcodeF32Const, le32(math.Float32bits(3)))
+	m.AddFunc(wb.Func{Params: []wasm.ValueType{wb.I64}, Results: []wasm.ValueType{wb.I64}, Export: "w64", Body: wb.Cat(bump1, wb.LocalGet(0), i64c3, wasm.OpcodeI64Add)})
+	m.AddFunc(wb.Func{Params: []wasm.ValueType{wb.F64}, Results: []wasm.ValueType{wb.F64}, Export: "wf64", Body: wb.Cat(bump1, wb.LocalGet(0), f64c3, wasm.OpcodeF64Add)})
+	m.AddFunc(wb.Func{Params: []wasm.ValueType{wb.F32}, Results: []wasm.ValueType{wb.F32}, Export: "wf32", Body: wb.Cat(bump1, wb.LocalGet(0), f32c3, wasm.OpcodeF32Add)})
+	m.AddFunc(wb.Func{Params: []wasm.ValueType{wb.I32, wb.I64, wb.F64, wb.F32, wb.I64}, Results: []wasm.ValueType{wb.I64, wb.F64, wb.I32}, Export: "wide",
+		Body: wb.Cat(bump1, wb.LocalGet(1), i64c3, wasm.OpcodeI64Add, wb.LocalGet(2), f64c3, wasm.OpcodeF64Add, wb.LocalGet(0), wb.I32Const(3), wasm.OpcodeI32Add)})
 	return m.Build()
+}
+
+func le32(v uint32) []byte { b := make([]byte, 4); binary.LittleEndian.PutUint32(b, v); return b }
+func le64(v uint64) []byte { b := make([]byte, 8); binary.LittleEndian.PutUint64(b, v); return b }
+
+// typed functions: how the model's integer is carried by each signature
+var typedFns = map[string]bool{"w64": true, "wf64": true, "wf32": true, "wide": true}
+
+const lowTag = 0x9abcdef1
+const corrupt = -424242 // what an observer records when the values it was shown are not an encoding of any integer
+
+func enc64(x int32) uint64  { return uint64(int64(x))<<32 | lowTag }
+func encF64(x int32) uint64 { return math.Float64bits(float64(x) + 0.5) }
+func encF32(x int32) uint64 { return uint64(math.Float32bits(float32(x) + 0.5)) }
+
+func typedArgs(fn string, x int32) []uint64 {
+	switch fn {
+	case "w64":
+		return []uint64{enc64(x)}
+	case "wf64":
+		return []uint64{encF64(x)}
+	case "wf32":
+		return []uint64{encF32(x)}
+	case "wide":
+		return []uint64{uint64(uint32(x)), enc64(x), encF64(x), encF32(x), ^enc64(x)}
+	}
+	return []uint64{uint64(uint32(x))}
+}
+
+// typedValue decodes parameters (result=false) or results (result=true) of a typed function; corrupt when they are no encoding.
+func typedValue(fn string, v []uint64, result bool) int {
+	same := func(a, b []uint64) bool { return fmt.Sprint(a) == fmt.Sprint(b) }
+	// the upper half of a slot that carries a 32-bit value is not part of the value (as in the C08 harness)
+	v = append([]uint64{}, v...)
+	switch {
+	case fn == "wf32" && len(v) == 1:
+		v[0] &= 0xffffffff
+	case fn == "wide" && !result && len(v) == 5:
+		v[0], v[3] = v[0]&0xffffffff, v[3]&0xffffffff
+	case fn == "wide" && result && len(v) == 3:
+		v[2] &= 0xffffffff
+	}
+	switch fn {
+	case "w64":
+		if x := int32(int64(v[0]) >> 32); len(v) == 1 && same(v, typedArgs(fn, x)) {
+			return int(x)
+		}
+	case "wf64":
+		if x := int32(math.Floor(math.Float64frombits(v[0]))); len(v) == 1 && same(v, typedArgs(fn, x)) {
+			return int(x)
+		}
+	case "wf32":
+		if x := int32(math.Floor(float64(math.Float32frombits(uint32(v[0]))))); len(v) == 1 && same(v, typedArgs(fn, x)) {
+			return int(x)
+		}
+	case "wide":
+		if !result {
+			if x := int32(v[0]); len(v) == 5 && same(v, typedArgs(fn, x)) {
+				return int(x)
+			}
+		} else if len(v) == 3 {
+			if x := int32(v[2]); same(v, []uint64{enc64(x), encF64(x), uint64(uint32(x))}) {
+				return int(x)
+			}
+		}
+	}
+	return corrupt
 }
 
 // starterModule: start function = mark(5) ; <body> ; mark(7), as start section or as exported _start.
@@ -253,6 +331,9 @@ func (l *lst) Before(ctx context.Context, mod api.Module, def api.FunctionDefini
 	if len(params) > 0 {
 		v = int(int32(params[0]))
 	}
+	if typedFns[l.name] {
+		v = typedValue(l.name, params, false)
+	}
 	var chain []string
 	for si.Next() {
 		chain = append(chain, fname(si.Function().Definition()))
@@ -264,6 +345,9 @@ func (l *lst) After(ctx context.Context, mod api.Module, def api.FunctionDefinit
 	v := 0
 	if len(results) > 0 {
 		v = int(int32(results[0]))
+	}
+	if typedFns[l.name] {
+		v = typedValue(l.name, results, true)
 	}
 	l.r.events = append(l.r.events, event{"after", l.name, v, nil})
 }
@@ -484,7 +568,7 @@ func replay(id int, b *behaviour, engine, mode string, sameObjects bool) common.
 		}
 		done := make(chan ret, 1)
 		go func() {
-			out, err := f.Call(ctx, uint64(uint32(c.Top.Arg)))
+			out, err := f.Call(ctx, typedArgs(c.Top.Fn, int32(c.Top.Arg))...)
 			done <- ret{out, err}
 		}()
 		var r ret
@@ -495,6 +579,9 @@ func replay(id int, b *behaviour, engine, mode string, sameObjects bool) common.
 			return res
 		}
 		got := classify(r.out, r.err)
+		if got.K == "ok" && typedFns[c.Top.Fn] {
+			got.V = typedValue(c.Top.Fn, r.out, true)
+		}
 		if got.K == "ok" && c.Top.Fn == "mark" {
 			got.V -= delta["M"]
 		}
